@@ -370,9 +370,17 @@ def _wait(chk, repo, folder):
         v = src(r.value)
         # the entry is the last logged one
         d = ff.single_defs().get(v)
-        chk.check(d is not None and src(d) == "self.log[-1]", "R5", f"{EM}:EmcyConsumer.wait | returns newest entry", f.loc(r),
-                  f"returned value {v} is {src(d) if d is not None else 'not a single definition'}; expected self.log[-1]")
+        all_defs = sorted({src(n.value) for n in own_nodes(f.node) if isinstance(n, ast.Assign) and src(n.targets[0]) == v})
+        newest = (d is not None and src(d) == "self.log[-1]") or (all_defs == ["None", "self.log[-1]"] and any(p and src(e) == f"{v} is not None" or (not p and src(e) == f"{v} is None")
+                                                                                                                for e, p in ff.facts_at(r)))
+        chk.check(newest, "R5", f"{EM}:EmcyConsumer.wait | returns newest entry", f.loc(r),
+                  f"returned value {v} is {src(d) if d is not None else all_defs}; expected self.log[-1]")
         facts = ff.facts_at(r)
+        # an entry that arrived after the deadline is not handed out: the deadline test comes before the match
+        late_ok = any((not p and ff.norm(e, subst=False) in ("time.time() > end_time", "end_time < time.time()", "time.time() >= end_time"))
+                      or (p and ff.norm(e, subst=False) in ("time.time() <= end_time", "end_time >= time.time()", "time.time() < end_time")) for e, p in facts)
+        chk.check(late_ok, "R5", f"{EM}:EmcyConsumer.wait | no entry after the deadline", f.loc(r),
+                  f"`{src(r)}` is reached without the deadline test (conditions {[(src(e), p) for e, p in facts]}): a matching entry that arrives after the time-out is returned instead of None")
         # accepted: a positive fact `emcy_code is None or emcy.code == emcy_code`
         ok = False
         badform = None
@@ -383,6 +391,9 @@ def _wait(chk, repo, folder):
                     ok = True
                 elif any(x in ("not emcy_code",) for x in parts):
                     badform = src(e)
+            if p and isinstance(e, ast.Compare) and len(e.ops) == 1 and isinstance(e.ops[0], ast.In) and src(e.left) == "emcy_code" and isinstance(e.comparators[0], (ast.Tuple, ast.List)) \
+                    and sorted(src(x) for x in e.comparators[0].elts) == sorted(["None", f"{v}.code"]):
+                ok = True               # `emcy_code in (None, emcy.code)`: membership compares by identity or equality
             if not p and isinstance(e, ast.BoolOp) and isinstance(e.op, ast.And):
                 parts = {ff.norm(x, subst=False) for x in e.values}
                 if parts == {"emcy_code is not None", f"emcy_code != {v}.code"}:
